@@ -25,7 +25,10 @@ CONSTANTS NChild,               \* number of children
           SrcLen,               \* items the source holds
           Susp,                 \* suspensions per source pull (also the exhausting one)
           UseLock,              \* a lock was passed to tee
+          ExitSusp,             \* 1: the lock's __aexit__ suspends once after releasing (0: never)
           AllowCancel,          \* consumers may be cancelled
+          AllowFail,            \* the source may raise (once) instead of delivering an item
+          Closable,             \* the source has an aclose method
           AllowClose,           \* children may be closed early
           UnstartedCloseLeaks,  \* TRUE: the code as it is; FALSE: what the property demands
           HandleSweeps,         \* Tee.aclose() deregisters never-started children and closes the source
@@ -33,7 +36,7 @@ CONSTANTS NChild,               \* number of children
 
 Child == 1..NChild
 
-VARIABLES cs,        \* "unstarted" | "idle" | "lockwait" | "insrc" | "done" | "closed" | "cancelled"
+VARIABLES cs,        \* "unstarted" | "idle" | "lockwait" | "insrc" | "exiting" | "exitstop" | "done" | "closed" | "cancelled"
           rem,       \* remaining source suspensions of a child inside the source
           buf,       \* per-child buffer (item indexes)
           reg,       \* buffer still registered in `peers`
@@ -42,10 +45,11 @@ VARIABLES cs,        \* "unstarted" | "idle" | "lockwait" | "insrc" | "done" | "
           srcBusy,   \* children currently inside source.__anext__
           srcClosed, \* number of aclose() calls on the source
           lock,      \* 0 or the child holding the lock
+          nfail,     \* failures injected so far
           last       \* label of the last step (observation only, hidden by View)
 
-vars == <<cs, rem, buf, reg, recv, srcPos, srcBusy, srcClosed, lock, last>>
-View == <<cs, rem, buf, reg, recv, srcPos, srcBusy, srcClosed, lock>>
+vars == <<cs, rem, buf, reg, recv, srcPos, srcBusy, srcClosed, lock, nfail, last>>
+View == <<cs, rem, buf, reg, recv, srcPos, srcBusy, srcClosed, lock, nfail>>
 
 Init == /\ cs = [c \in Child |-> "unstarted"]
         /\ rem = [c \in Child |-> 0]
@@ -53,7 +57,7 @@ Init == /\ cs = [c \in Child |-> "unstarted"]
         /\ reg = [c \in Child |-> TRUE]
         /\ recv = [c \in Child |-> <<>>]
         /\ srcPos = 0 /\ srcBusy = {} /\ srcClosed = 0
-        /\ lock = 0
+        /\ lock = 0 /\ nfail = 0
         /\ last = <<"init", 0>>
 
 \* the finally block: deregister c, close the source if c was the last peer
@@ -62,31 +66,39 @@ Finally(c, newcs, l2) ==
    /\ buf' = [buf EXCEPT ![c] = <<>>]
    /\ cs' = [cs EXCEPT ![c] = newcs]
    /\ lock' = l2
-   /\ srcClosed' = IF \A d \in Child \ {c} : ~reg[d] THEN srcClosed + 1 ELSE srcClosed
+   /\ srcClosed' = IF Closable /\ (\A d \in Child \ {c} : ~reg[d]) THEN srcClosed + 1 ELSE srcClosed
 
 \* the source hands an item to c: append to all registered buffers, release, pop own
 FetchDone(c) ==
    LET item == srcPos + 1
        b2 == [d \in Child |-> IF reg[d] THEN Append(buf[d], item) ELSE buf[d]] IN
    /\ srcPos' = item
-   /\ buf' = [b2 EXCEPT ![c] = Tail(@)]
-   /\ recv' = [recv EXCEPT ![c] = Append(@, Head(b2[c]))]
-   /\ cs' = [cs EXCEPT ![c] = "idle"]
    /\ lock' = 0
    /\ srcBusy' = srcBusy \ {c}
+   /\ IF UseLock /\ ExitSusp = 1
+      THEN /\ buf' = b2 /\ cs' = [cs EXCEPT ![c] = "exiting"] /\ UNCHANGED recv   \* suspended in lock.__aexit__
+      ELSE /\ buf' = [b2 EXCEPT ![c] = Tail(@)]
+           /\ recv' = [recv EXCEPT ![c] = Append(@, Head(b2[c]))]
+           /\ cs' = [cs EXCEPT ![c] = "idle"]
    /\ UNCHANGED <<reg, srcClosed, rem>>
 
 \* holding the lock (or needing none): re-check the buffer, then go to the source
 AfterLock(c) ==
-   IF buf[c] # <<>> THEN
-      /\ recv' = [recv EXCEPT ![c] = Append(@, Head(buf[c]))]
-      /\ buf' = [buf EXCEPT ![c] = Tail(@)]
-      /\ cs' = [cs EXCEPT ![c] = "idle"]
-      /\ lock' = 0
-      /\ UNCHANGED <<rem, reg, srcPos, srcBusy, srcClosed>>
+   IF buf[c] # <<>> THEN        \* another peer produced an item while we waited: `continue`
+      IF UseLock /\ ExitSusp = 1
+      THEN /\ cs' = [cs EXCEPT ![c] = "exiting"] /\ lock' = 0
+           /\ UNCHANGED <<rem, buf, reg, recv, srcPos, srcBusy, srcClosed>>
+      ELSE /\ recv' = [recv EXCEPT ![c] = Append(@, Head(buf[c]))]
+           /\ buf' = [buf EXCEPT ![c] = Tail(@)]
+           /\ cs' = [cs EXCEPT ![c] = "idle"]
+           /\ lock' = 0
+           /\ UNCHANGED <<rem, reg, srcPos, srcBusy, srcClosed>>
    ELSE IF Susp = 0 /\ srcPos >= SrcLen THEN
-      /\ Finally(c, "done", 0)
-      /\ UNCHANGED <<rem, recv, srcPos, srcBusy>>
+      IF UseLock /\ ExitSusp = 1
+      THEN /\ cs' = [cs EXCEPT ![c] = "exitstop"] /\ lock' = 0
+           /\ UNCHANGED <<rem, buf, reg, recv, srcPos, srcBusy, srcClosed>>
+      ELSE /\ Finally(c, "done", 0)
+           /\ UNCHANGED <<rem, recv, srcPos, srcBusy>>
    ELSE IF Susp = 0 THEN FetchDone(c)
    ELSE /\ cs' = [cs EXCEPT ![c] = "insrc"]
         /\ rem' = [rem EXCEPT ![c] = Susp]
@@ -118,10 +130,26 @@ Tick(c) ==
    /\ IF rem[c] > 1 THEN /\ rem' = [rem EXCEPT ![c] = @ - 1]
                          /\ UNCHANGED <<cs, buf, reg, recv, srcPos, srcBusy, srcClosed, lock>>
       ELSE IF srcPos >= SrcLen THEN      \* the source reports its end
-         /\ Finally(c, "done", IF lock = c THEN 0 ELSE lock)
-         /\ srcBusy' = srcBusy \ {c}
-         /\ UNCHANGED <<rem, recv, srcPos>>
+         IF UseLock /\ ExitSusp = 1
+         THEN /\ cs' = [cs EXCEPT ![c] = "exitstop"] /\ lock' = 0
+              /\ srcBusy' = srcBusy \ {c}
+              /\ UNCHANGED <<rem, buf, reg, recv, srcPos, srcClosed>>
+         ELSE /\ Finally(c, "done", IF lock = c THEN 0 ELSE lock)
+              /\ srcBusy' = srcBusy \ {c}
+              /\ UNCHANGED <<rem, recv, srcPos>>
       ELSE FetchDone(c)      \* sets lock' = 0: with a lock the holder is c, without nobody holds it
+
+\* lock.__aexit__ resumes: leave `async with`, then yield from the buffer / finish
+ExitStep(c) ==
+   /\ cs[c] \in {"exiting", "exitstop", "exitcancel", "exitfail"}
+   /\ last' = <<"exit", c>>
+   /\ IF cs[c] = "exiting"
+      THEN /\ recv' = [recv EXCEPT ![c] = Append(@, Head(buf[c]))]
+           /\ buf' = [buf EXCEPT ![c] = Tail(@)]
+           /\ cs' = [cs EXCEPT ![c] = "idle"]
+           /\ UNCHANGED <<rem, reg, srcPos, srcBusy, srcClosed, lock>>
+      ELSE /\ Finally(c, CASE cs[c] = "exitstop" -> "done" [] cs[c] = "exitfail" -> "failed" [] OTHER -> "cancelled", lock)
+           /\ UNCHANGED <<rem, recv, srcPos, srcBusy>>
 
 Close(c) ==
    /\ AllowClose
@@ -135,9 +163,14 @@ Close(c) ==
 
 Cancel(c) ==
    /\ AllowCancel
-   /\ cs[c] \in {"lockwait", "insrc"}
+   /\ cs[c] \in {"lockwait", "insrc", "exiting", "exitstop", "exitfail"}
    /\ last' = <<"cancel", c>>
-   /\ Finally(c, "cancelled", IF lock = c THEN 0 ELSE lock)
+   /\ IF cs[c] = "insrc" /\ UseLock /\ ExitSusp = 1
+      THEN \* the exception leaves `async with lock` through __aexit__, which suspends
+           /\ cs' = [cs EXCEPT ![c] = "exitcancel"]
+           /\ lock' = IF lock = c THEN 0 ELSE lock
+           /\ UNCHANGED <<buf, reg, srcClosed>>
+      ELSE Finally(c, "cancelled", IF lock = c THEN 0 ELSE lock)
    /\ srcBusy' = srcBusy \ {c}
    /\ UNCHANGED <<rem, recv, srcPos>>
 
@@ -147,7 +180,7 @@ Cancel(c) ==
 \* stay registered unless the handle sweeps them.
 CloseAll ==
    /\ AllowClose
-   /\ \A c \in Child : cs[c] \notin {"lockwait", "insrc"}
+   /\ \A c \in Child : cs[c] \notin {"lockwait", "insrc", "exiting", "exitstop", "exitcancel", "exitfail"}
    /\ \E c \in Child : cs[c] \in {"unstarted", "idle"}
    /\ last' = <<"closeall", 0>>
    /\ LET runs(c) == cs[c] = "idle" \/ (cs[c] = "unstarted" /\ ~UnstartedCloseLeaks)
@@ -157,16 +190,33 @@ CloseAll ==
       /\ cs' = [c \in Child |-> IF cs[c] \in {"unstarted", "idle"} THEN "closed" ELSE cs[c]]
       /\ reg' = IF sweep THEN [c \in Child |-> FALSE] ELSE regA
       /\ buf' = [c \in Child |-> IF sweep \/ ~regA[c] THEN <<>> ELSE buf[c]]
-      /\ srcClosed' = srcClosed + (IF byChild \/ sweep THEN 1 ELSE 0)
+      /\ srcClosed' = srcClosed + (IF Closable /\ (byChild \/ sweep) THEN 1 ELSE 0)
    /\ UNCHANGED <<rem, recv, srcPos, srcBusy, lock>>
 
-Next == CloseAll \/ \E c \in Child : Anext(c) \/ Grant(c) \/ Tick(c) \/ Close(c) \/ Cancel(c)
+\* the source raises instead of delivering (at the last tick of a pull): the exception
+\* leaves `async with lock` and the finally block like a cancellation does, and reaches
+\* the consumer of child c; the class-based source itself survives
+Fail(c) ==
+   /\ AllowFail /\ nfail = 0
+   /\ cs[c] = "insrc" /\ rem[c] = 1
+   /\ last' = <<"fail", c>>
+   /\ nfail' = 1
+   /\ IF UseLock /\ ExitSusp = 1
+      THEN /\ cs' = [cs EXCEPT ![c] = "exitfail"]
+           /\ lock' = IF lock = c THEN 0 ELSE lock
+           /\ UNCHANGED <<buf, reg, srcClosed>>
+      ELSE Finally(c, "failed", IF lock = c THEN 0 ELSE lock)
+   /\ srcBusy' = srcBusy \ {c}
+   /\ UNCHANGED <<rem, recv, srcPos>>
+
+Next == \/ (CloseAll \/ \E c \in Child : Anext(c) \/ Grant(c) \/ Tick(c) \/ ExitStep(c) \/ Close(c) \/ Cancel(c)) /\ UNCHANGED nfail
+        \/ \E c \in Child : Fail(c)
 
 Spec == Init /\ [][Next]_vars
 
 ---------------------------------------------------------------------------
 (* C09 as invariants                                                       *)
-Finished(c) == cs[c] \in {"done", "closed", "cancelled"}
+Finished(c) == cs[c] \in {"done", "closed", "cancelled", "failed"}
 Live == {c \in Child : ~Finished(c)}
 IsPrefixOfSource(s) == \A i \in 1..Len(s) : s[i] = i
 
@@ -184,7 +234,7 @@ Retention == \A c \in Child : \A i \in 1..Len(buf[c]) :
 \* registered live children hold exactly what they have not yielded yet
 BufExact == \A c \in Live : reg[c] => Len(buf[c]) = srcPos - Len(recv[c])
 \* the source is closed exactly when the last child is done
-CloseOnce == srcClosed <= 1 /\ (srcClosed = 1 <=> Live = {})
+CloseOnce == srcClosed <= 1 /\ (Closable => (srcClosed = 1 <=> Live = {})) /\ (~Closable => srcClosed = 0)
 \* a lock is never left held by a finished or idle child
 LockFree == (\A c \in Child : cs[c] # "insrc") => lock = 0
 
